@@ -36,7 +36,7 @@ def gen_extension(S, rnd):
     roots = {"query": "", "mutation": "", "subscription": ""}
 
     def blank_ext(name):
-        return {"name": name, "fields": [], "interfaces": [], "members": [], "values": [], "inputFields": []}
+        return {"name": name, "fields": [], "interfaces": [], "members": [], "values": [], "inputFields": [], "specifiedBy": None}
     # a new interface and a new object type that implements it
     if rnd.random() < 0.6:
         it = g.blank("INTERFACE", g.name("XIf"))
@@ -92,6 +92,18 @@ def gen_extension(S, rnd):
             continue
         if any(e[x] for x in ("fields", "interfaces", "members", "values", "inputFields")):
             ext.append(e)
+    # scalar extensions: several extension nodes for one scalar, some giving the @specifiedBy url, some only a custom directive
+    scalar_exts = []
+    plain_scalars = [t for t in S["types"] if t["kind"] == "SCALAR" and not t["specifiedBy"]]
+    if plain_scalars and rnd.random() < 0.6:
+        sc = rnd.choice(plain_scalars)
+        new_dirs.append({"name": "xs", "description": None, "locations": ["SCALAR"], "repeatable": True, "args": []})
+        kinds_ = rnd.choice([["url", "dir"], ["dir", "url"], ["url", "dir", "dir"], ["dir", "url", "dir"], ["url"]])
+        for kd in kinds_:
+            e = blank_ext(sc["name"])
+            if kd == "url":
+                e["specifiedBy"] = "https://example.com/" + sc["name"].lower()
+            scalar_exts.append(e)
     if rnd.random() < 0.5:
         en = g.blank("ENUM", g.name("XEn"))
         en["values"] = [{"name": "A", "description": None, "deprecation": None}]
@@ -120,6 +132,8 @@ def gen_extension(S, rnd):
         else:
             fake = {**t, "description": None, "inputFields": e["inputFields"], "oneOf": False}
             items.append(("ext", e, "extend " + gs.to_sdl(S, types=[fake], directives=[], with_schema_block=False).strip()))
+    for e in scalar_exts:
+        items.append(("ext", e, f"extend scalar {e['name']} " + (f"@specifiedBy(url: {gs.q(e['specifiedBy'])})" if e["specifiedBy"] else "@xs")))
     for t in new_types:
         items.append(("type", t, gs.to_sdl(S, types=[t], directives=[], with_schema_block=False).strip()))
     for d in new_dirs:
@@ -138,7 +152,7 @@ def ext_wire(E):
     for e in E["ext"]:
         fake = {"kind": "OBJECT", "name": e["name"], "description": None, "specifiedBy": None, "oneOf": False, **{k: e[k] for k in ("fields", "interfaces", "members", "values", "inputFields")}}
         w = gs.to_wire({"description": None, "query": None, "mutation": None, "subscription": None, "types": [fake], "directives": []})["types"][0]
-        exts.append({k: w[k] for k in ("name", "fields", "interfaces", "members", "values", "inputFields")})
+        exts.append({**{k: w[k] for k in ("name", "fields", "interfaces", "members", "values", "inputFields")}, "specifiedBy": gs._txt(e.get("specifiedBy"))})
     return {"ext": exts, "newTypes": W["types"], "newDirectives": W["directives"], "query": E["query"], "mutation": E["mutation"], "subscription": E["subscription"]}
 
 
